@@ -789,7 +789,82 @@ theorem keepalive_kept (h : dc.Hom) (cfg : StreamCfg) (req : ReqInfo) (σ : List
   · simp [Link.reuse, r, hrest, c, hkeep, heof, a.outcome, hok]
   · exact absurd hrest hne
 
+/-- the no-body set is exactly {1xx, 204, 304} ... -/
+theorem noContentCode_iff (c : Nat) :
+    noContentCode c = true ↔ (100 ≤ c ∧ c < 200) ∨ c = 204 ∨ c = 304 := by
+  simp [noContentCode, or_assoc]
+
+/-- ... plus responses to HEAD requests -/
+theorem isNoBody_iff (req : ReqInfo) (st : Status) :
+    isNoBody req st = true ↔
+      ((100 ≤ st.code ∧ st.code < 200) ∨ st.code = 204 ∨ st.code = 304) ∨ req.method.map asciiUpper = lit "HEAD" := by
+  simp [isNoBody, noContentCode, or_assoc]
+
+/-- **C08 `body_read_unless_forbidden`.**  "No body where the protocol forbids one" — and
+only there: when the header block is complete and its status is none of 1xx / 204 / 304 and
+the request was not a HEAD (every other status: 200, 201, 205, 206, 3xx, 4xx, 5xx, …), the
+reader agrees, for every schedule, with the *framed-body* specification `specBody`: the
+bytes it consumes are the header block plus exactly the framed length (chunked, else
+Content-Length, else until close), so nothing of the body is left on the connection. -/
+theorem body_read_unless_forbidden (h : dc.Hom) (cfg : StreamCfg) (req : ReqInfo) (σ : List Nat) (w : Wire)
+    (block nt r : Bytes) (st : Status) (f : Fields)
+    (hhead : specHead (w.bytes.length + 2) w.bytes w.eof [] 0 = .ok block nt r)
+    (hparse : parseResponse block = .ok (st, f))
+    (hcode : ¬ ((100 ≤ st.code ∧ st.code < 200) ∨ st.code = 204 ∨ st.code = 304))
+    (hmeth : req.method.map asciiUpper ≠ lit "HEAD") :
+    Agrees (decode dc cfg req σ w) (specBody dc cfg req (w.bytes.length + 2) st f r nt w) := by
+  have a := decode_agrees h cfg req σ w
+  have hnb : isNoBody req st = false := by
+    cases hb : isNoBody req st with
+    | false => rfl
+    | true => rcases (isNoBody_iff req st).mp hb with hc | hm
+              · exact absurd hc hcode
+              · exact absurd hm hmeth
+  have hr : rfc dc cfg req w = specBody dc cfg req (w.bytes.length + 2) st f r nt w := by
+    unfold rfc
+    simp only [hhead, hparse, hnb, Bool.false_eq_true, if_false]
+  rw [hr] at a
+  exact a
+
+/-- ... and where the protocol does forbid a body nothing after the header block is consumed -/
+theorem no_body_when_forbidden (h : dc.Hom) (cfg : StreamCfg) (req : ReqInfo) (σ : List Nat) (w : Wire)
+    (block nt r : Bytes) (st : Status) (f : Fields)
+    (hhead : specHead (w.bytes.length + 2) w.bytes w.eof [] 0 = .ok block nt r)
+    (hparse : parseResponse block = .ok (st, f))
+    (hnb : isNoBody req st = true) :
+    (decode dc cfg req σ w).outcome = .ok st f [] ∧ (decode dc cfg req σ w).rest = r ∧
+    (decode dc cfg req σ w).notified = nt := by
+  have a := decode_agrees h cfg req σ w
+  have hr : rfc dc cfg req w = specOf w (.ok st f []) nt r false := by
+    unfold rfc
+    simp only [hhead, hparse, hnb, if_true]
+  rw [hr] at a
+  have hs : ∃ st' f' b', (specOf w (.ok st f []) nt r false).outcome = .ok st' f' b' := ⟨st, f, [], rfl⟩
+  refine ⟨a.outcome, ?_, a.notified hs⟩
+  rcases a.framing hs with ⟨hrest, _, _⟩ | ⟨hc, _, _⟩
+  · exact hrest
+  · -- a no-body response is never closed by the reader
+    exfalso
+    unfold decode at hc
+    have hh := readHead_spec (w.bytes.length + 2) { rest := w.bytes, eof := w.eof, sched := σ } [] 0
+    simp only at hh hc
+    cases hrd : readHead (w.bytes.length + 2) { rest := w.bytes, eof := w.eof, sched := σ } [] 0 with
+    | exc e nt' c => rw [hrd] at hh; simp [Head.obs, hhead] at hh
+    | stall nt' c => rw [hrd] at hh; simp [Head.obs, hhead] at hh
+    | ok block' nt' c =>
+      rw [hrd] at hh
+      simp only [Head.obs, hhead, HeadS.ok.injEq] at hh
+      obtain ⟨hb, _, _⟩ := hh
+      subst hb
+      simp [hrd, hparse, hnb, mkResult] at hc
+
 /-! ## Non-vacuity -/
+
+/-- a 205 is framed like any other response: the chunked empty body is consumed -/
+example : (decode idDecoder {} {} [] { bytes := lit "HTTP/1.1 205 Reset\r\nTransfer-Encoding: chunked\r\n\r\n0\r\n\r\n", eof := false }).consumed = 55 ∧
+    (rfc idDecoder {} {} { bytes := lit "HTTP/1.1 205 Reset\r\nTransfer-Encoding: chunked\r\n\r\n0\r\n\r\n", eof := false }).rest = [] := by decide
+example : noContentCode 205 = false ∧ noContentCode 204 = true ∧ noContentCode 199 = true ∧ noContentCode 200 = false := by decide
+
 
 def exMsg : Wire := { bytes := lit "HTTP/1.1 200 OK\r\nContent-Length: 2\r\n\r\nabX", eof := false }
 
